@@ -31,4 +31,24 @@ def units(ctx):
     us += pyvc_units(date_time.contracts(), 'C20', date_time.setup)
     us += [contract_unit(c, probe=True, world_setup=date_time.setup)
            for c in date_time.contracts() if 'C20-probe' in c.serves]
+    # native twin of the whole family (replay source for the contracts
+    # above): the identities of the statement on boundary values
+    from props._common import bounded_unit
+    us.append(bounded_unit(
+        'bounded:c20-instants', 'c20_instants.py',
+        'BOUNDED: the identities of the statement evaluated by the real '
+        'engine on boundary datetimes (years 1..9999, offsets up to '
+        '+-23:59), timespans from 1 microsecond to the whole calendar, '
+        'timestamps, naive and aware host datetimes'))
     return us
+
+
+def post(ctx, results):
+    from props._common import attach_replay
+    bounded = [o for r in results for o in r['obligations']
+               if o['name'] == 'bounded:c20-instants']
+    rep = (bounded[0].get('replay') if bounded else None)
+    if rep and rep.get('status') == 'failed':
+        attach_replay(results, lambda o: not o.get('bounded')
+                      and o.get('kind') in ('post', 'raises'), rep)
+    return results
